@@ -27,7 +27,9 @@ CHECKS = {
     text="Proof (model level): an update that is a per-particle map commutes with permutation and sub-selection; the collision "
          "memory is a lookup by pid, invariant under adding/removing/re-ordering other particles. The substance - that the vectorised "
          "numpy code refines that map - is checked on every run by metamorphic relations on the implementation (permutation, "
-         "sub-selection, empty set with warnings as errors) and community-vs-alone histories.",
+         "sub-selection, empty set with warnings as errors) and community-vs-alone histories. Syntactic part of that refinement: every "
+         "statement window of an ibm.py that the translator accepts consists of element-wise numpy operations only (a reduction, sort "
+         "or shift makes the translation fail, which is reported for C10), so the translated windows are liftings of per-particle functions.",
     technique="Lean 4 theorems on List.map / lookup-by-identity; metamorphic + differential correspondence on the implementation",
     design="3/C10",
     note="Partial in the sense of DESIGN 3/C10: the refinement 'numpy code = map of the per-particle rule' is established by testing, not by proof."),
